@@ -305,6 +305,16 @@ def own_candidates(prog, rep, ctx, rid) -> bool:
     gen = prog.method(ctx, "_generate_fingerprint_info")
     ok, seen = True, False
     for p in cpaths(prog, ctx, gen):
+        if p.exit[0] == "return" and not (p.exit[1][0] == "tup" and len(p.exit[1][1]) == 3) and any(n[0] == "f" and n[1] == SELF for n in walk(p.exit[1])):
+            # a remembered answer: as good as a fresh one only if the memo is sound (its key covers the capacity and the fingerprint width)
+            from .C19 import memo_sound
+            okm, why = memo_sound(prog, ctx, gen)
+            if not okm:
+                rep.bad(rid, f"{ctx}._generate_fingerprint_info", "remembered indices",
+                        f"the indices handed out for a key can come from a remembered answer that is not known to be current ({why}): after the capacity changes the key is "
+                        "looked for, and inserted, in buckets it no longer maps to", gen.where(p.exit[2]))
+                ok = False
+                break
         if p.exit[0] == "return" and p.exit[1][0] == "tup" and len(p.exit[1][1]) == 3:
             seen = True
             i1, i2, fp = (strip_epochs(x) for x in p.exit[1][1])
